@@ -466,3 +466,7 @@ V("c19-benign-sgr-omitted-eq", "C19", AN, "                    if _code.isdecima
 V("c19-cr-trailing-drops-line", "C19", AN, '        line = line.rstrip("\\r").rsplit("\\r", 1)[-1]\n', '        line = line.rsplit("\\r", 1)[-1]\n', "R19.15")
 V("c19-cr-keeps-head", "C19", AN, '        line = line.rstrip("\\r").rsplit("\\r", 1)[-1]\n', '        line = line.rstrip("\\r").split("\\r", 1)[0]\n', "R19.15")
 V("c19-benign-cr-two-steps", "C19", AN, '        line = line.rstrip("\\r").rsplit("\\r", 1)[-1]\n', '        line = line.rstrip("\\r")\n        if "\\r" in line:\n            line = line[line.rindex("\\r") + 1 :]\n', None)
+V("c06-rgb-name-as-typed", "C06", CO, "            return cls(triplet.rgb, ColorType.TRUECOLOR, triplet=triplet)\n", "            return cls(color, ColorType.TRUECOLOR, triplet=triplet)\n", "R6.11")
+V("c06-rgb-name-original", "C06", CO, "            return cls(triplet.rgb, ColorType.TRUECOLOR, triplet=triplet)\n", "            return cls(original_color, ColorType.TRUECOLOR, triplet=triplet)\n", "R6.9")
+V("c06-benign-rgb-name-fstring", "C06", CO, "            return cls(triplet.rgb, ColorType.TRUECOLOR, triplet=triplet)\n", '            return cls(f"rgb({triplet.red},{triplet.green},{triplet.blue})", ColorType.TRUECOLOR, triplet=triplet)\n', None)
+V("c06-benign-rgb-no-space-regex", "C06", CO, "rgb\\(([\\d\\s,]+)\\)$", "rgb\\(([\\d,]+)\\)$", None)
